@@ -46,10 +46,10 @@ var registry = []Harness{
 		Quick: [][]int{{0}, {1}},
 		Bound: "mint, two locks of one owner (amounts, until in -3..300 symbolic), optional burn of the first (0..y1), two ticks with symbolic epochs 1..300 (param: delivered directly / through the Netmap fan-out)"},
 	{Prop: "C08", Pkg: "netmap", Func: "VerifC08Resize", Link: []string{"netmap"},
-		Quick:    [][]int{{10, 3, 1, 6}, {3, 4, 0, 6}, {3, 5, 2, 6}, {2, 3, 1, 6}, {4, 2, 1, 6}},
-		Thorough: [][]int{{10, 3, 1, 12}, {3, 4, 0, 12}, {3, 5, 2, 12}, {2, 3, 1, 12}, {4, 2, 1, 12}, {10, 11, 1, 12}, {10, 12, 2, 12}, {10, 13, 0, 12}, {5, 7, 2, 12}, {5, 9, 3, 12}, {6, 6, 1, 12}, {4, 9, 0, 12}, {2, 1, 3, 12}, {7, 14, 2, 12}, {10, 0, 2, 12}},
+		Quick:    [][]int{{10, 3, 1, 6, 0}, {3, 4, 0, 6, 0}, {3, 5, 2, 6, 0}, {2, 3, 1, 6, 0}, {4, 2, 1, 6, 0}, {3, 5, 1, 6, 4}, {2, 4, 2, 6, 3}, {3, 4, 2, 6, 5}},
+		Thorough: [][]int{{10, 3, 1, 12, 0}, {3, 4, 0, 12, 0}, {3, 5, 2, 12, 0}, {2, 3, 1, 12, 0}, {4, 2, 1, 12, 0}, {10, 11, 1, 12, 0}, {10, 12, 2, 12, 0}, {10, 13, 0, 12, 0}, {5, 7, 2, 12, 0}, {5, 9, 3, 12, 0}, {6, 6, 1, 12, 0}, {4, 9, 0, 12, 0}, {2, 1, 3, 12, 0}, {7, 14, 2, 12, 0}, {10, 0, 2, 12, 0}, {3, 5, 1, 12, 4}, {2, 4, 2, 12, 3}, {3, 4, 2, 12, 5}, {10, 12, 1, 12, 11}, {4, 6, 3, 12, 8}, {3, 3, 3, 12, 6}},
 		Unwind: 40,
-		Bound: "count c0 (param 0) set at epoch 0, t0 ticks (param 1), resize to symbolic count 0..param 3 (6 quick, 12 thorough), t1 ticks (param 2, plus one if 0); symbolic queries snapshot(d) d in -1..7, snapshotByEpoch(q), listNodes(q2); one node per published map carrying its epoch"},
+		Bound: "count c0 (param 0) set at epoch 0, t0 ticks (param 1), resize to symbolic count 0..param 3 (6 quick, 12 thorough), t1 ticks (param 2, plus one if 0); symbolic queries snapshot(d) d in -1..7, snapshotByEpoch(q), listNodes(q2); one node per published map carrying its epoch; param 4: the epoch whose map is published EMPTY (the node goes offline before that tick; 0: none), before or after the resize and after the ring wrapped"},
 	{Prop: "C06", Pkg: "netmap", Func: "VerifC06Tick", Link: []string{"netmap", "balance", "probe1", "probe2"},
 		Quick: [][]int{{0}, {1}}, Thorough: [][]int{{0}, {1}, {2}, {3}},
 		Bound: "snapshot count param0 (0: the default 10; 1: the published list is the oldest kept), 3 legacy candidates (Online, Maintenance, Offline->removed), 1 structured, subscribers Balance+probe1+probe2 (probe1 subscribed twice), probe2 refuses one symbolic epoch; two newEpoch invocations with symbolic epochs -2..1000 and symbolic Alphabet signature"},
@@ -87,6 +87,9 @@ var registry = []Harness{
 	{Prop: "C20", Pkg: "container", Func: "VerifC20Estimations", Link: []string{"nns", "netmap", "balance", "neofsid", "container"},
 		Quick: [][]int{{1, 1, 1}, {2, 1, 1}, {2, 2, 2}}, Thorough: [][]int{{1, 1, 1}, {2, 1, 1}, {1, 2, 2}, {2, 2, 2}, {1, 2, 1}},
 		Bound: "five linked contracts, one container, one storage node of the previous epoch's map; two putContainerSize with symbolic epochs (classes 1..127 / 128..32767 by params) and sizes, three refused attempts, iterateContainerSizes for a symbolic epoch, one tick with a symbolic epoch 3..32767 and its clean-up"},
+	{Prop: "C20", Pkg: "container", Func: "VerifC20EstimationIDs", Link: []string{"nns", "netmap", "balance", "neofsid", "container"},
+		Quick: [][]int{{0}, {1}, {2}},
+		Bound: "one container, one storage node, ONE estimation with a symbolic epoch (param0: exactly 0 - empty encoding / 1..127 / 128..32767) and size; listContainerSizes, getContainerSize by the listed id, iterateContainerSizes, iterateAllContainerSizes"},
 	{Prop: "C20", Pkg: "neofsid", Func: "VerifC20NeoFSID", Link: []string{"neofsid"},
 		Bound: "addKey(o1,[k1,k2]) addKey(o2,[k3]) removeKey(o3,[k4]) with symbolic 25-byte owners and 33-byte keys free to coincide; key(oq) for symbolic oq"},
 	{Prop: "C18", Unwind: 300, Pkg: "nns", Func: "VerifC18IPv4Shape", Link: []string{"nns"},
@@ -180,7 +183,7 @@ var registry = []Harness{
 		Bound: "a name with symbolic lifetime 1..1000 s and one record, a symbolic time span 1..1.1*10^6 ms; getRecords, resolve, getAllRecords answer exactly until the expiration instant"},
 	{Prop: "C03", Pkg: "proxy", Func: "VerifC03", Link: []string{"alphabet", "audit", "balance", "container", "neofs", "neofsid", "netmap", "nns", "processing", "proxy", "reputation", "probe1"},
 		Quick: c03Params([]int{7}), Thorough: c03Params([]int{1, 3, 7}),
-		Bound: "one invocation per mutating method (47 methods of 10 contracts; NNS is C11, update is C16) from a small fixture built through the API, arguments concrete/valid, signer set symbolic over {Alphabet 2n/3+1 account, committee n/2+1 account, Inner Ring majority account, one committee member, the named user, the named node}+stranger; committee size = param2 (7 in quick: the two thresholds differ)"},
+		Bound: "one invocation per mutating method (47 methods of 10 contracts, plus the public Balance transfer with a Null sender; NNS is C11, update is C16) from a small fixture built through the API, arguments concrete/valid, signer set symbolic over {Alphabet 2n/3+1 account, committee n/2+1 account, Inner Ring majority account, one committee member, the named user, the named node}+stranger; committee size = param2 (7 in quick: the two thresholds differ)"},
 	{Prop: "C03", Pkg: "proxy", Func: "VerifC03Verify", Link: []string{"alphabet", "netmap", "neofs", "processing", "proxy"},
 		Quick: [][]int{{7}}, Thorough: [][]int{{1}, {3}, {7}},
 		Bound: "verify of Proxy, Alphabet and Processing with the same symbolic signer set"},
@@ -208,7 +211,7 @@ var registry = []Harness{
 }
 
 func c03Params(sizes []int) [][]int {
-	counts := []int{6, 11, 11, 4, 8, 2}
+	counts := []int{7, 11, 11, 4, 8, 2}
 	var out [][]int
 	for _, n := range sizes {
 		for g, c := range counts {
